@@ -122,6 +122,12 @@ func TestWorker(t *testing.T) {
 	switch job.Mode {
 	case "replay":
 		workerReplay(t, &job, known, out)
+	case "one":
+		r := ExecRun(t, RunSpec{Prop: job.Prop, Family: job.Families[0], Seed: job.SeedBase}, known)
+		out.Runs = 1
+		out.Outcomes[r.Outcome]++
+		js, _ := json.MarshalIndent(map[string]any{"scenario": r.Spec.Scenario, "violations": r.Violations, "outcome": r.Outcome, "detail": r.Detail, "events": r.Events, "probes": r.Probes, "faults": r.Faults}, "", " ")
+		out.Samples = append(out.Samples, js)
 	case "selftest":
 		out.SelfTest = map[string]uint64{}
 		for i := 0; i < job.Count; i++ {
